@@ -81,6 +81,23 @@ def _roundtrip(f, sfx: bytes = b"\xa5\x5a"):
 _ISO = core.Isolation(keep=1)
 
 
+# Case key "reassign" ({"int": v} | {"hex": octets}; not read by the model ops): the application ASSIGNS ANOTHER VALUE (through
+# the documented `value` setter) to a field one of the from-int / from-octets entries handed out earlier for the same
+# arguments - entity IDs and sequence numbers are counted up in place. A field the same entry returned before, one it returned
+# after, and one it returns now for the same arguments still show the value that was asked for (core.factory_independent;
+# the whole sequence is in the line, the re-assigned field is put back at the end).
+def _reassigned(a, make, what: str):
+    st = a.get("reassign")
+    if not st:
+        return
+
+    def mutate(f):
+        f.value = st["int"] if "int" in st else unhx(st["hex"])
+    err = core.factory_independent(make, _views, mutate, what + f" [an earlier result was re-assigned: value = {st}]")
+    if err is not None:
+        raise SelfCheckFailure(err)
+
+
 def op_bf_new(a):
     f = UnsignedByteField(a["value"], a["width"])
     _coherent(f, "UnsignedByteField(value, width)")
@@ -117,6 +134,7 @@ def op_bf_from_bytes(a):
     _coherent(f, "from_bytes")
     if bytes(f.as_bytes) != raw:
         raise SelfCheckFailure("from_bytes(raw).as_bytes != raw")
+    _reassigned(a, lambda: UnsignedByteField.from_bytes(raw), "UnsignedByteField.from_bytes")
     return _views(f)
 
 
@@ -126,12 +144,14 @@ def op_bf_from_un(a):
     _ISO.check("UnsignedByteField", f, _views)
     _detached(getattr(SUB[a["width"]], READER[a["width"]]), raw, f, READER[a["width"]])
     _coherent(f, READER[a["width"]])
+    _reassigned(a, lambda: getattr(SUB[a["width"]], READER[a["width"]])(raw), READER[a["width"]])
     return _views(f)
 
 
 def op_bf_gen_int(a):
     f = ByteFieldGenerator.from_int(a["width"], a["value"])
     _coherent(f, "ByteFieldGenerator.from_int")
+    _reassigned(a, lambda: ByteFieldGenerator.from_int(a["width"], a["value"]), "ByteFieldGenerator.from_int")
     return _views(f)
 
 
@@ -143,6 +163,7 @@ def op_bf_gen_bytes(a):
     _coherent(f, "ByteFieldGenerator.from_bytes")
     if bytes(f.as_bytes) != raw[:a["width"]]:
         raise SelfCheckFailure("generator did not take the first `width` octets")
+    _reassigned(a, lambda: ByteFieldGenerator.from_bytes(a["width"], raw), "ByteFieldGenerator.from_bytes")
     return _views(f)
 
 
@@ -192,6 +213,16 @@ def op_bf_seq(a):
             raise SelfCheckFailure(f"after step {i}: field is not == to a fresh field with the same value and width")
         if hash(f) != hash(g) or {g: 1}.get(f) != 1:
             raise SelfCheckFailure(f"after step {i}: field equal to a fresh field hashes differently (value {int(f)}, width {len(f)})")
+    if a.get("via_gen") and a["width"] in VWIDTHS:
+        # the field came from the generator and has been re-assigned since: what the generator returns now for the same
+        # arguments is the field that was asked for (if it is not, the re-assigned field is the generator's: put it back so
+        # that this line alone fails)
+        now = _views(ByteFieldGenerator.from_int(a["width"], a["value"]))
+        if now != init:
+            core.tolerant_set(f, "value", a["value"])
+            raise SelfCheckFailure(f"ByteFieldGenerator.from_int({a['width']}, {a['value']}) returns a field showing {now} after the field "
+                                   f"it returned earlier for the same arguments was re-assigned (steps {str(a['steps'])[:120]}); "
+                                   f"asked for was {init}")
     return {"init": init, "results": results, "views": views}
 
 
@@ -515,6 +546,22 @@ class C20(Prop):
             raw2 = bytes(x ^ 0xFF for x in (raw1 * 8)[:w2])
             for raw in (raw1, raw2, raw1):
                 yield from bytes_cases(raw, "complement-pair", readers=[len(raw)])
+
+        # --- a field handed out earlier for the same arguments was re-assigned (key "reassign") ---------------
+        for w in VWIDTHS:
+            vals = value_pool(w, rng, 0)
+            for v in rng.sample(vals, min(len(vals), 24)) + [0, 1, (1 << (8 * w)) - 1]:
+                v2 = rng.choice(vals) if rng.random() < 0.5 else rng.getrandbits(8 * w)
+                if v2 == v:
+                    v2 = v ^ 1
+                st = {"int": v2} if rng.random() < 0.5 else {"hex": hx(v2.to_bytes(w, "big") + rbytes(rng, rng.choice([0, 0, 2])))}
+                raw = v.to_bytes(w, "big")
+                yield Case({"op": "bf_gen_int", "width": w, "value": v, "reassign": st}, "valid", tag="reassigned")
+                yield Case({"op": "bf_gen_bytes", "width": w, "raw": hx(raw + rbytes(rng, rng.choice([0, 1, 5]))), "reassign": st},
+                           "valid", tag="reassigned")
+                yield Case({"op": "bf_from_un", "width": w, "raw": hx(raw + rbytes(rng, rng.choice([0, 3]))), "reassign": st},
+                           "valid", tag="reassigned")
+                yield Case({"op": "bf_from_bytes", "raw": hx(raw), "reassign": st}, "valid", tag="reassigned")
 
         # --- equality and hashing -----------------------------------------------------------
         small = [(w, v) for w in WIDTHS for v in (0, 1, 2, 255, 256, 257, 65535, 65536, (1 << 32) - 1, 1 << 32,
